@@ -57,6 +57,8 @@ func baseWorld() {
 	put(note(Q2, "another post"))
 	put(note(h1+"/notes/N1", "announced note"))
 	put(note(h2+"/notes/Q", "same path as Q on another host"))
+	put(note(Q+"?rev=2", "same path as Q, different query"))
+	put(actor(O+"?alt=1", "same path as the owner, different query"))
 	put(actor(h2+"/users/O", "same path as the owner on another host"))
 }
 
@@ -119,6 +121,7 @@ func activityEntries() []entry {
 	mk("not-an-activity", "Note", h1, str(O), false, func(d M) { d["content"] = "I am a note" })
 	mk("forged-owner-from-evil", "Announce", evil, func() any { a := actor(O, "Owner forged"); return a }, true, nil) // re-fetched from h1: genuinely by O
 	mk("by-same-path-actor-on-other-host", "Announce", h1, str(h2+"/users/O"), false, nil)
+	mk("by-actor-differing-only-in-query", "Announce", h1, str(O+"?alt=1"), false, nil)
 	mk("peer-with-owner-name", "Announce", h1, func() any { a := actor(P, "Owner"); return a }, false, nil)
 	out = append(out, entry{Name: "activity-404/url", Make: func(n int) (any, string) { return h1 + "/acts/missing", "failure" }})
 	out = append(out, entry{Name: "junk-value", Make: func(n int) (any, string) { return 42.0, "failure" }})
@@ -157,6 +160,7 @@ func replyEntries() []entry {
 	mk("no-parent", h1, func(string) any { return nil }, false, nil)
 	mk("parent-unfetchable", h1, str(h1+"/notes/gone"), false, nil)
 	mk("parent-same-path-other-host", h1, str(h2+"/notes/Q"), false, nil)
+	mk("parent-differing-only-in-query", h1, str(Q+"?rev=2"), false, nil)
 	mk("tombstone", h1, str(Q), false, func(d M) { d["type"] = "Tombstone" })
 	mk("an-actor", h1, str(Q), false, func(d M) { d["type"] = "Person" })
 	mk("reply-with-foreign-author", h2, str(Q), false, func(d M) { d["attributedTo"] = O })
